@@ -189,6 +189,38 @@ pub fn generate(g: &mut Gen, thorough: bool) {
             true,
         );
     }
+    // 1b. definitions of one step that are not pipelines (no separator at all), laid out as freely
+    for _ in 0..(if thorough { 3000 } else { 300 }) {
+        let w: World = make_world(&mut g.rng, 2);
+        let mut steps = random_steps(&mut g.rng, &w, 1);
+        if g.rng.chance(1, 2) {
+            steps = vec![StepSpec::plain("add2 lon_0=9 x_0=500000 k_0=0.9996 lat_0=0")];
+        }
+        steps[0].omit_fwd = false;
+        steps[0].omit_inv = false;
+        let (noisy, canon) = noisy_layout(&mut g.rng, &steps, false);
+        let (Some(noisy), Some(canon)) = (noisy.strip_suffix(" |"), canon.strip_suffix(" |")) else { continue };
+        if noisy.contains('|') || noisy.contains('<') || noisy.contains('>') {
+            continue;
+        }
+        // comments: a line of its own in front, at the end of a line, at the very end (their words are no parameters)
+        let noisy = match g.rng.below(5) {
+            0 => format!("# a comment x=9 y=8\n{noisy}"),
+            1 => format!("{noisy} # x=9 not a parameter"),
+            2 => format!("{noisy} # inv omit_fwd\r\n"),
+            _ => noisy.to_string(),
+        };
+        let noisy = noisy.as_str();
+        let cf = ctx_fields("default", &w).join("\t");
+        let data = super::probe_data(2);
+        for t in [canon, noisy] {
+            for f in ["steps", "normalize"] {
+                g.push(format!("TOK\t{}\t{}", f, crate::wire::escape(t)), &format!("tok-{f}-single"), true);
+            }
+        }
+        g.push(format!("OP\t{}\t{}\tskelboth\tF\t{}", cf, crate::wire::escape(noisy), data), "op-noisy-single", true);
+        g.push(format!("S_C16\t{}\t{}\t{}\t0\t{}", cf, crate::wire::escape(canon), crate::wire::escape(noisy), data), "oracle-layout-single", true);
+    }
     // 2. typed parameters: every spelling, through a probe operator with one parameter of each type
     for (key, vals) in value_spellings() {
         for v in vals {
